@@ -33,10 +33,7 @@ let show_opt = function None -> Atom "unreadable" | Some t -> Atom (show_ty t)
 
 let class_name (k : M.kclass) : string =
   match k with
-  | M.KResultComma -> "kf_result_ok_has_comma"
-  | M.KTupleComma -> "kf_tuple_elem_has_comma"
   | M.KUnionUnderSeq -> "kf_union_under_seq"
-  | M.KPrefixComposite -> "kf_prefix_composite"
   | M.KPrefixUnqualified -> "kf_prefix_unqualified"
   | M.KZodOptional -> "kf_zod_optional"
   | M.KZodSet -> "kf_zod_set"
